@@ -143,3 +143,24 @@ pub fn c01_witness_valid() {
     check!(is_card(w[0]) && is_card(w[1]) && is_card(w[2]) && is_card(w[3]) && is_card(w[4]), "witness slots are cards (S1)");
     cover!(k == 323, "the best flush");
 }
+
+/// HISTORY on the REAL evaluator: ranking a five-card hand after another one has been ranked gives the hand's own
+/// ordinal (no hidden state in the five-card path).  Both hands range over the table path (five distinct ranks,
+/// flush or not), any slot order.
+#[cfg_attr(kani, kani::proof)]
+#[cfg_attr(kani, kani::unwind(14))]
+#[cfg_attr(kani, kani::solver(kissat))]
+pub fn c01_five_history_distinct() {
+    let (w0, r0, _s0) = any_five();
+    let (w1, r1, s1) = any_five();
+    sym::assume(distinct_ranks(r0) && distinct_ranks(r1));
+    let (h0, h1) = (Five::from(w0), Five::from(w1));
+    let _ = h0.hand_rank_value();
+    let _ = h0.hand_rank_value_validated();
+    let flush1 = s1[0] == s1[1] && s1[1] == s1[2] && s1[2] == s1[3] && s1[3] == s1[4];
+    let want = ord::ord(ranks_u8(r1), flush1);
+    check!(h1.hand_rank_value() == want, "value of a hand ranked after another hand is its own ordinal");
+    check!(h1.hand_rank_value_validated() == want, "validated value of a hand ranked after another hand is its own ordinal");
+    cover!(flush1 && w0[0] != w1[0], "a flush after a different hand");
+    cover!((w0[0] ^ w0[1] ^ w0[2] ^ w0[3] ^ w0[4]) == (w1[0] ^ w1[1] ^ w1[2] ^ w1[3] ^ w1[4]) && !sym::same(w0, w1), "different hands with the same XOR signature");
+}
